@@ -21,9 +21,15 @@ CFG = dict(
          "1..=len+3 x the 10 entry points x Polars Float64Chunked inputs of 1, 2, 3 chunks (nulls where the series has NaN; "
          "by value and by reference), the second series a Vec or a Polars array with another chunking, slice forms "
          "receiving Polars slices that span chunk boundaries; compared with the default-body model (iterator body "
-         "returned, index body into the caller's buffer) over Option<f64> elements",
-    theorem_hint="Props/C02.v: C02_once_in_order_*, C02_removed_arg_*, C02_slice_arg_*, C02_every_window_*, C02_two_series_*",
-    level_text="Proof: 33 theorems (Props/C02.v, axiom-free) about the Gallina model of all eight drivers and both "
+         "returned, index body into the caller's buffer) over Option<f64> elements. part=dispatch (YA, both tiers, exhaustive): "
+         "len 0..=3 (thorough 5) x window 0..=len+2 x {rolling_apply, rolling_apply_idx, rolling_custom} x returned / caller buffer "
+         "x {Vec, boxed slice, ndarray owned / stride-2 view / mutable view, VecDeque, option view, Arc<Vec>, Arc<VecDeque>, "
+         "Arc<Arc<Array1>>} against Model/DriverDispatch.v (rolling_*_on (be_of b) out): WHICH body the backend runs is compared, "
+         "with the removed value / start index at the final position of a too-long window UNMASKED (the only observation that "
+         "separates the bodies). part=lazy: rolling_custom_iter pulled k = 0..=len+1 times and dropped: the callback ran exactly "
+         "min(k, len) times on the first windows",
+    theorem_hint="Props/C02.v: C02_once_in_order_*, C02_removed_arg_*, C02_slice_arg_*, C02_every_window_*, C02_two_series_*, C02_backend_*, C02_lazy_iterator*, C02_call_trace",
+    level_text="Proof: 64 theorems (Props/C02.v, axiom-free) about the Gallina model of all eight drivers and both "
                "bodies, for every series and every stateful callback. Window >= 1: one call per position in order, "
                "the removed argument, the slice argument = positions max(0,i-w+1)..=i, output placement, and agreement "
                "of the two bodies for add-emit-remove callbacks. EVERY window, 0 included (X12): each one-series entry point "
@@ -34,7 +40,18 @@ CFG = dict(
                "series only, then one call per zipped pair; rolling2_custom: lengths, then window-1), the start iterator of "
                "rolling2_apply_idx, the exact corner where a window check on the zipped series would differ (w = 0, xs non-empty, "
                "ys empty - the model error repaired by X12), agreement of the two bodies when the second series is not shorter, "
-               "and their designed difference when it is. Nothing is partial. The model is tied to the code by an exhaustive "
+               "and their designed difference when it is. "
+               "Audit (YA, notes/C02.md has the clause x theorem matrix): the number / order / arguments of the invocations as an "
+               "observation of ANY callback (C02_call_trace: result k was computed after exactly the first k+1 arguments); the window as "
+               "a set of positions (C02_slice_positions); the corners of the statement for every entry point and both bodies - window = 1, "
+               "len = 0, window > len (what each body reports at the final position); the two bodies differ exactly when len < w at "
+               "i = len-1 and a callback can observe it there (C02_bodies_differ_exactly_at / _observably) while every callback sees "
+               "equal bodies once the window fits; the hypothesis w <= len dropped from the index-form agreement theorems; EVERY backend "
+               "x both output paths through a dispatch model (Vec, [T], [T; N], three ndarray types: index body on both paths; VecDeque, "
+               "option view, Polars: trait default; Arc<V> = V) with closed forms for all eight entry points, what does not depend on the "
+               "backend, and the one place that does (slice form at window 0: assertion vs window-1 underflow); the lazy iterator "
+               "(k pulls run the callback on the first k windows, draining = the returned slice form). Nothing is partial. Not covered: "
+               "a caller buffer whose length differs from the series, panicking callbacks. The model is tied to the code by an exhaustive "
                "small-scope differential run (recording callback, all entry points x backends x output paths, and the "
                "degenerate two-series combinations with the identity of the failing check).",
     level_note="Trusted: Coq kernel; the hand-written model of view.rs/vec.rs/ndarray.rs driver bodies and of std's "
